@@ -2,9 +2,12 @@
 C20 driver: maps a case line of go/props/c20 to the line the real code must print.
 Scalar routines = the GENERATED translation of scalar.go executed with the real shift;
 Schnorr = Model/Schnorr.lean over the independent SHA-512 / Edwards arithmetic in the same file.
+fe / ge / pt2 cases (go/props/c20/fege.go) = the regenerated translation of fe.go / ge.go executed with Go's wrapping
+integer semantics (Model/Ed25519FeOps.lean, Model/Ed25519Ge.lean), compared limb for limb and byte for byte.
 -/
 import DosModel.Model.Schnorr
 import DosModel.Gen.Ed25519Sc
+import DosModel.Model.Ed25519Ge
 
 open Dos Dos.Ed25519 Dos.Schnorr
 
@@ -73,6 +76,127 @@ def bundledVerdict (pub msg sig : Bytes) : String :=
   match g.dec pub with
   | none => "rej:key"
   | some A => verdict (verify g H A msg sig)
+
+/-! ### fe / ge / pt2: the limb-level model (Model/Ed25519FeOps.lean, Model/Ed25519Ge.lean) -/
+
+open Dos.FeProg in
+/-- `l0,l1,…,l9` (decimal, leading `-` for negatives) -/
+def limbsOf (tok : String) : L10 := toL10 ((tok.splitOn ",").map (fun s => s.toInt?.getD 0))
+
+open Dos.FeProg in
+def showLimbs (l : L10) : String := ",".intercalate (l.toList.map toString)
+
+open Dos.FeProg in
+/-- a struct token: limb vectors joined by `/` -/
+def vecsOf (tok : String) : List L10 := (tok.splitOn "/").map limbsOf
+
+open Dos.FeProg in
+def showVecs (vs : List L10) : String := "/".intercalate (vs.map showLimbs)
+
+def projOf (tok : String) : Ge.Proj := Ge.proj3 (vecsOf tok) 0
+def extOf (tok : String) : Ge.Ext := Ge.ext4 (vecsOf tok) 0
+def complOf (tok : String) : Ge.Compl := Ge.compl4 (vecsOf tok) 0
+def preOf (tok : String) : Ge.Pre := Ge.pre3 (vecsOf tok) 0
+def cachedOf (tok : String) : Ge.Cached := Ge.cached4 (vecsOf tok) 0
+
+def intOf (tok : String) : Int := tok.toInt?.getD 0
+
+def feStep (arg : Nat → String) : String :=
+  let pat := arg 2
+  let f := limbsOf (arg 3)
+  -- `f=g` / `all`: both operands are the same object, the second vector of the line is not used
+  let g := if pat == "f=g" || pat == "all" then f else limbsOf (arg 4)
+  match arg 1 with
+  | "mul" => showLimbs (FeOps.feMul f g)
+  | "square" => showLimbs (FeOps.feSquare f)
+  | "square2" => showLimbs (FeOps.feSquare2 f)
+  | "add" => showLimbs (FeOps.feAdd f g)
+  | "sub" => showLimbs (FeOps.feSub f g)
+  | "neg" => showLimbs (FeOps.feNeg f)
+  | "copy" => showLimbs (FeOps.feCopy f)
+  | "zero" => showLimbs FeOps.feZero
+  | "one" => showLimbs FeOps.feOne
+  | "cmove" => showLimbs (FeOps.feCMove f g (intOf (arg 5)))
+  | "frombytes" => showLimbs (FeOps.feFromBytes (hex! (arg 3)))
+  | "tobytes" => let r := FeOps.feToBytes f; toHex r.1 ++ " " ++ showLimbs r.2
+  | "isneg" => let r := FeOps.feIsNegative f; toString r.1.toNat ++ " " ++ showLimbs r.2
+  | "isnonzero" => let r := FeOps.feIsNonZero f; toString r.1 ++ " " ++ showLimbs r.2
+  | "invert" => showLimbs (FeOps.feInvert f)
+  | "pow22523" => showLimbs (FeOps.fePow22523 f)
+  | _ => "bad fe op"
+
+def geStep (arg : Nat → String) : String :=
+  match arg 1 with
+  | "zero" =>
+    match arg 2 with
+    | "proj" => showVecs Ge.projZero.regs
+    | "ext" => showVecs Ge.extZero.regs
+    | "pre" => showVecs Ge.preZero.regs
+    | "cached" => showVecs Ge.cachedZero.regs
+    | _ => "bad ge zero kind"
+  | "double" => showVecs (Ge.projDouble (projOf (arg 2))).regs
+  | "extdouble" => showVecs (Ge.extDouble (extOf (arg 2))).regs
+  | "neg" =>
+    if arg 2 == "inplace" then showVecs (Ge.extNegInPlace (extOf (arg 3))).regs
+    else showVecs (Ge.extNeg (extOf (arg 3))).regs
+  | "tocached" => showVecs (Ge.extToCached (extOf (arg 2))).regs
+  | "toproj" => showVecs (Ge.extToProj (extOf (arg 2))).regs
+  | "c2proj" => showVecs (Ge.complToProj (complOf (arg 2))).regs
+  | "c2ext" => showVecs (Ge.complToExt (complOf (arg 2))).regs
+  | "add" => showVecs (Ge.complAdd (extOf (arg 2)) (cachedOf (arg 3))).regs
+  | "sub" => showVecs (Ge.complSub (extOf (arg 2)) (cachedOf (arg 3))).regs
+  | "madd" => showVecs (Ge.complMixedAdd (extOf (arg 2)) (preOf (arg 3))).regs
+  | "msub" => showVecs (Ge.complMixedSub (extOf (arg 2)) (preOf (arg 3))).regs
+  | "precmove" => showVecs (Ge.preCMove (preOf (arg 2)) (preOf (arg 3)) (intOf (arg 4))).regs
+  | "preneg" => showVecs (Ge.preNeg (preOf (arg 2))).regs
+  | "cachedcmove" => showVecs (Ge.cachedCMove (cachedOf (arg 2)) (cachedOf (arg 3)) (intOf (arg 4))).regs
+  | "cachedneg" => showVecs (Ge.cachedNeg (cachedOf (arg 2))).regs
+  | "ptobytes" => toHex (Ge.projToBytes (projOf (arg 2)))
+  | "tobytes" => toHex (Ge.extToBytes (extOf (arg 2)))
+  | "frombytes" =>
+    match Ge.extFromBytes (hex! (arg 2)) with
+    | none => "false"
+    | some p => showVecs p.regs
+  | "equal" => toString (Ge.equal (intOf (arg 2)) (intOf (arg 3)))
+  | "negative" => toString (Ge.negative (intOf (arg 2)))
+  | "selpre" => showVecs (Ge.selectPreComputed (intOf (arg 2)).toNat (intOf (arg 3))).regs
+  | "selcached" =>
+    let ai := (List.range 8).map (fun i => cachedOf (arg (3 + i)))
+    showVecs (Ge.selectCached ai (intOf (arg 2))).regs
+  | "smult" => showVecs (Ge.geScalarMult (hex! (arg 3)) (extOf (arg 4))).regs  -- `inplace`: h is written last
+  | "smultbase" => showVecs (Ge.geScalarMultBase (hex! (arg 2))).regs
+  | "baseext" => showVecs Ge.baseExt.regs
+  | _ => "bad ge op"
+
+def showPt (p : Ge.Ext) : String := toHex (Ge.ptMarshal p) ++ " " ++ showVecs p.regs
+
+def pt2Step (arg : Nat → String) : String :=
+  let un (i : Nat) : Option Ge.Ext := Ge.ptUnmarshal (hex! (arg i))
+  match arg 1 with
+  | "base" => showPt Ge.ptBase
+  | "null" => showPt Ge.ptNull
+  | "mulbase" => showPt (Ge.ptMul (hex! (arg 2)) none)
+  | "unmarshal" =>
+    match un 2 with
+    | none => "err"
+    | some p => "ok " ++ showPt p
+  | "neg" =>
+    match un 2 with
+    | some p => showPt (Ge.ptNeg p)
+    | none => "operand does not decode"
+  | "mul" =>
+    match un 3 with
+    | some p => showPt (Ge.ptMul (hex! (arg 2)) (some p))
+    | none => "operand does not decode"
+  | "add" | "sub" | "equal" =>
+    match un 2, un 3 with
+    | some p, some q =>
+      match arg 1 with
+      | "add" => showPt (Ge.ptAdd p q)
+      | "sub" => showPt (Ge.ptSub p q)
+      | _ => toString (Ge.ptEqual p q)
+    | _, _ => "operand does not decode"
+  | _ => "bad pt2 op"
 
 def step (line : String) : String :=
   let w := words line
@@ -191,6 +315,9 @@ def step (line : String) : String :=
     | "equal" => s!"equal={hx 2 == hx 3} self=true"
     | "string" => String.join ((scMarshal (hx 2)).map hexOfByte)
     | _ => "bad apx op"
+  | "fe" => feStep arg
+  | "ge" => geStep arg
+  | "pt2" => pt2Step arg
   | _ => "bad case line"
 
 end C20
